@@ -74,7 +74,7 @@ func panicRules(roots []string) func(p *Prog, r *Report) {
 
 func init() {
 	register("C01",
-		"Structural clauses of 'XML decodes to the documented Map under all options' decided on xmlToMapParser: INFL.cover (attribute keys depend on attrPrefix, lowerCase, snakeCaseKeys and the attribute name; element keys on lowerCase/snakeCaseKeys; text on trimRunes and xmlEscapeCharsDecoder and passes through cast with the decoder's flag; text-key choice on decodeSimpleValuesAsMap; _seq only under includeTagSeqNum), INFL.castflag (structure independent of the cast flag), TABLE.keys (shared key variables, no literals), DECODE.sibling (every decoded child is stored on every path; repeated siblings are append(existing, new)), PAIR.seqnum (the _seq number is a running counter advanced with every child), OPT.setter + PAIR.derived for the options the decoder reads (each setter stores what its documentation says for no, one and more arguments; trimRunes follows disableTrimWhiteSpace), TEXT.nonempty (character data is stored only under a non-emptiness test of the trimmed text that is stored: white space between children never becomes or overwrites a text value), FOLD.total (snake-case folding replaces every hyphen), TABLE.escape (decoder-side escaping touches exactly the five special characters, '&' first), PANIC.nil/assert/idx on the decoder. Not decided: equality of the produced Map with the documented one (trimming results, collisions, case-folding values). TEXT.trimset (character data is trimmed with the option's cut set trimRunes only); TABLE.naninf for the decoder's cast."+levelNote,
+		"Structural clauses of 'XML decodes to the documented Map under all options' decided on xmlToMapParser: INFL.cover (attribute keys depend on attrPrefix, lowerCase, snakeCaseKeys and the attribute name; element keys on lowerCase/snakeCaseKeys; text on trimRunes and xmlEscapeCharsDecoder and passes through cast with the decoder's flag; text-key choice on decodeSimpleValuesAsMap; _seq only under includeTagSeqNum), INFL.castflag (structure independent of the cast flag), TABLE.keys (shared key variables, no literals), DECODE.sibling (every decoded child is stored on every path; repeated siblings are append(existing, new)), PAIR.seqnum (the _seq number is a running counter advanced with every child), OPT.setter + PAIR.derived for the options the decoder reads (each setter stores what its documentation says for no, one and more arguments; trimRunes follows disableTrimWhiteSpace), TEXT.nonempty (character data is stored only under a non-emptiness test of the trimmed text that is stored: white space between children never becomes or overwrites a text value), FOLD.total (snake-case folding replaces every hyphen), TABLE.escape (decoder-side escaping touches exactly the five special characters, '&' first), PANIC.nil/assert/idx on the decoder. Not decided: equality of the produced Map with the documented one (trimming results, collisions, case-folding values). TEXT.trimset (character data is trimmed with the option's cut set trimRunes only); TABLE.naninf for the decoder's cast. TABLE.trimset (the two trim cut sets differ by the blank only); FOLD.total whole-key clause (lower-casing applies to the assembled key)."+levelNote,
 		[]string{"documented option semantics transcribed in rules_infl.go"},
 		ruleInflCover,
 		func(p *Prog, r *Report) { ruleInflCastFlag(p, r) },
@@ -93,7 +93,7 @@ func init() {
 		panicRules(grpMapDecode))
 
 	register("C02",
-		"Structural agreement of decoder and encoder conventions: TABLE.keys (both halves read the shared key variables), FOLD.total (the decoder's snake-case folding replaces every hyphen, so it is idempotent: the names the encoder writes decode to themselves), PAIR.derived (lenAttrPrefix tracks attrPrefix), TABLE.partition (attribute / text / element partition of a map's keys is the same predicate in both scans), ESC.flow (every Map value reaches the output escaped unless xmlEscapeChars is known false), TABLE.escape (entity table, order, no unescaped early return), ORDER (sorted emission), WALK.arms (every list member and collected child is encoded), TAGS.protocol (path-sensitive typestate of the Map element encoder: on every path feasible for a decoder-shaped value the buffer writes follow start tag, attributes, close, content, end tag / self-close; start and end tag name the same parameter; no successful return leaves an open element), ROOT.single (each encoder passes exactly one call of the element encoder on every path that returns a document; the call on the receiver's single entry is guarded by len == 1), TAGS.content (on no path is the element completed while its text entry or scalar value — string, number or boolean, as float/bool casting produces — has not been written). Not decided: equality of the second decode with the first; well-formedness of names and of the sequence encoder's output. ROOT.ownkey (in the single-member case the whole Map is wrapped in the default root only for a list member)."+levelNote,
+		"Structural agreement of decoder and encoder conventions: TABLE.keys (both halves read the shared key variables), FOLD.total (the decoder's snake-case folding replaces every hyphen, so it is idempotent: the names the encoder writes decode to themselves), PAIR.derived (lenAttrPrefix tracks attrPrefix), TABLE.partition (attribute / text / element partition of a map's keys is the same predicate in both scans), ESC.flow (every Map value reaches the output escaped unless xmlEscapeChars is known false), TABLE.escape (entity table, order, no unescaped early return), ORDER (sorted emission), WALK.arms (every list member and collected child is encoded), TAGS.protocol (path-sensitive typestate of the Map element encoder: on every path feasible for a decoder-shaped value the buffer writes follow start tag, attributes, close, content, end tag / self-close; start and end tag name the same parameter; no successful return leaves an open element), ROOT.single (each encoder passes exactly one call of the element encoder on every path that returns a document; the call on the receiver's single entry is guarded by len == 1), TAGS.content (on no path is the element completed while its text entry or scalar value — string, number or boolean, as float/bool casting produces — has not been written). Not decided: equality of the second decode with the first; well-formedness of names and of the sequence encoder's output. ROOT.ownkey (in the single-member case the whole Map is wrapped in the default root only for a list member). TABLE.trimset."+levelNote,
 		nil,
 		ruleTagProtocol, func(p *Prog, r *Report) { ruleTagContent(p, r, "map") }, ruleTableKeys, ruleRootSingle, ruleRootOwnKey,
 		ruleInflCover, ruleTableNanInf, ruleTableTrimSet,
@@ -106,7 +106,7 @@ func init() {
 		func(p *Prog, r *Report) { ruleWalkArms(p, r, []string{"mxj.marshalMapToXmlIndent"}) })
 
 	register("C03",
-		"Structural clauses of 'encoding a JSON-shaped value as XML preserves all data': WALK.arms (every list member encoded in order under its key, every collected child encoded, AnyXml encodes every member of a list value), ROOT.explicit (AnyXml / AnyXmlIndent always name the root when they hand a map to Map.Xml / XmlIndent), TABLE.partition, ESC.flow, TABLE.escape (all five special characters are escaped, '&' first, no early return leaves one unescaped), ERR.path on the Map encoders and AnyXml/AnyXmlIndent (an element encoder error cannot be overwritten or dropped), TAGS.protocol (typestate of the element encoder: every path feasible for a JSON-shaped value writes a complete, properly nested element), TAGS.content (no scalar value or text entry is dropped: a write computed from it precedes the end of the element on every path), OWN.private (the document returned is not reachable from package state — a pooled or cached buffer — so no later call can rewrite it), RENDER.lossless (no value-changing numeric conversion between the encoded value and its text). Not decided: decode(encode(m)) ≅ m; well-formedness for arbitrary key strings. ROOT.ownkey (in the single-member case the whole Map is wrapped in the default root only for a list member)."+levelNote,
+		"Structural clauses of 'encoding a JSON-shaped value as XML preserves all data': WALK.arms (every list member encoded in order under its key, every collected child encoded, AnyXml encodes every member of a list value), ROOT.explicit (AnyXml / AnyXmlIndent always name the root when they hand a map to Map.Xml / XmlIndent), TABLE.partition, ESC.flow, TABLE.escape (all five special characters are escaped, '&' first, no early return leaves one unescaped), ERR.path on the Map encoders and AnyXml/AnyXmlIndent (an element encoder error cannot be overwritten or dropped), TAGS.protocol (typestate of the element encoder: every path feasible for a JSON-shaped value writes a complete, properly nested element), TAGS.content (no scalar value or text entry is dropped: a write computed from it precedes the end of the element on every path), OWN.private (the document returned is not reachable from package state — a pooled or cached buffer — so no later call can rewrite it), RENDER.lossless (no value-changing numeric conversion between the encoded value and its text). Not decided: decode(encode(m)) ≅ m; well-formedness for arbitrary key strings. ROOT.ownkey (in the single-member case the whole Map is wrapped in the default root only for a list member). OPT.excl (the coupled escape setters)."+levelNote,
 		nil,
 		ruleTagProtocol, func(p *Prog, r *Report) { ruleTagContent(p, r, "map") }, ruleRootSingle, ruleRootOwnKey,
 		func(p *Prog, r *Report) { ruleRenderLossless(p, r, []string{"mxj.marshalMapToXmlIndent"}) },
@@ -148,7 +148,7 @@ func init() {
 		})
 
 	register("C06",
-		"Structural clauses of 'JSON encode/decode is lossless': TABLE.norewrite (the bytes returned by Json/JsonIndent come from encoding/json without textual substitution; safeEncoding selects the escaping mode), INFL.cover (JsonUseNumber controls Decoder.UseNumber), WRAP.compose (Copy = Json then NewMapJson), WRAP.writer (the Writer forms hand the writer exactly the encoder's bytes), ERR.path on the JSON functions, OWN.private (the bytes / the copy returned are not reachable from package state, so a later encode cannot rewrite them). Not decided: agreement with encoding/json on acceptance; array wrapping. JSON.firstvalue (NewMapJson answers without the decoder only for the empty input; one Decode, none in a loop or after another)."+levelNote,
+		"Structural clauses of 'JSON encode/decode is lossless': TABLE.norewrite (the bytes returned by Json/JsonIndent come from encoding/json without textual substitution; safeEncoding selects the escaping mode), INFL.cover (JsonUseNumber controls Decoder.UseNumber), WRAP.compose (Copy = Json then NewMapJson), WRAP.writer (the Writer forms hand the writer exactly the encoder's bytes), ERR.path on the JSON functions, OWN.private (the bytes / the copy returned are not reachable from package state, so a later encode cannot rewrite them). Not decided: agreement with encoding/json on acceptance; array wrapping. JSON.firstvalue (NewMapJson answers without the decoder only for the empty input; one Decode, none in a loop or after another). JSON.firstvalue decoder-error clause (after Decode a nil error only where the decoder's error was tested nil)."+levelNote,
 		nil,
 		func(p *Prog, r *Report) {
 			ruleOwnPrivate(p, r, []string{"mxj.Map.Json", "mxj.Map.JsonIndent", "mxj.Map.JsonWriterRaw", "mxj.Map.JsonIndentWriterRaw", "mxj.Map.Copy"})
@@ -168,7 +168,7 @@ func init() {
 		})
 
 	register("C07",
-		"Structural clauses of ValuesForPath exactness: PAIR.count (result is ret[:cnt] with cnt == len(ret)), WALK.progress (each recursion consumes exactly one segment; values are appended only when the path is exhausted), WALK.collect (collecting helpers are not recursive), ALIAS.reuse (no result buffer shares the array of a slice still being ranged over faster than it is consumed), WRAP.compose for ValueForPath / ValueForPathString / Exists (first value / non-empty of the plural form), PANIC.idx/assert on the indexed-path wrapper and the path parser, PRESENCE.commaok (whether a node has a key is decided by the comma-ok lookup, never by comparing the value with nil: null is a value), ITER.fresh (each parsed path segment is built from that segment only: no index or array flag left over from the previous one), WALK.lastindex (the indexed walker tests the type of a selected value only where segments remain: a final indexed step returns its member whatever its type). Not decided: that the returned multiset is the denoted one."+levelNote,
+		"Structural clauses of ValuesForPath exactness: PAIR.count (result is ret[:cnt] with cnt == len(ret)), WALK.progress (each recursion consumes exactly one segment; values are appended only when the path is exhausted), WALK.collect (collecting helpers are not recursive), ALIAS.reuse (no result buffer shares the array of a slice still being ranged over faster than it is consumed), WRAP.compose for ValueForPath / ValueForPathString / Exists (first value / non-empty of the plural form), PANIC.idx/assert on the indexed-path wrapper and the path parser, PRESENCE.commaok (whether a node has a key is decided by the comma-ok lookup, never by comparing the value with nil: null is a value), ITER.fresh (each parsed path segment is built from that segment only: no index or array flag left over from the previous one), WALK.lastindex (the indexed walker tests the type of a selected value only where segments remain: a final indexed step returns its member whatever its type). Not decided: that the returned multiset is the denoted one. WALK.literalkeys (no numeric conversion of a path segment in the legacy walker)."+levelNote,
 		nil,
 		func(p *Prog, r *Report) { rulePairCount(p, r, []string{"mxj.Map.oldValuesForPath"}) },
 		func(p *Prog, r *Report) { ruleIterFresh(p, r, []string{"mxj.parsePath"}) },
@@ -247,7 +247,7 @@ func init() {
 		panicRules([]string{"mxj.Map.ValuesForKey", "mxj.Map.ValueForKey", "mxj.Map.PathsForKey", "mxj.Map.PathForKeyShortest"}))
 
 	register("C09",
-		"Structural clauses of LeafNodes: WALK.total (getLeafNodes visits every entry and member; skips depend only on the no-attribute option and the attribute prefix; the scalar arm appends exactly one LeafNode carrying the node), WRAP.compose + FWD (LeafPaths/LeafValues are projections of LeafNodes and forward their option), PANIC.idx/assert on the walker, ATTR.guard (a key is tested against the attribute prefix only where the prefix is known non-empty), PRESENCE.commaok on the walker and on the path resolution it must agree with (a null leaf is a value), WALK.lastindex (a path ending in an indexed step resolves to the member whatever its type). Not decided: that each path resolves to exactly its value. LEAF.attrfilter (every member loop below LeafNodes that hands the key on contains the attribute-prefix test); ITER.fresh for parsePath."+levelNote,
+		"Structural clauses of LeafNodes: WALK.total (getLeafNodes visits every entry and member; skips depend only on the no-attribute option and the attribute prefix; the scalar arm appends exactly one LeafNode carrying the node), WRAP.compose + FWD (LeafPaths/LeafValues are projections of LeafNodes and forward their option), PANIC.idx/assert on the walker, ATTR.guard (a key is tested against the attribute prefix only where the prefix is known non-empty), PRESENCE.commaok on the walker and on the path resolution it must agree with (a null leaf is a value), WALK.lastindex (a path ending in an indexed step resolves to the member whatever its type). Not decided: that each path resolves to exactly its value. LEAF.attrfilter (every member loop below LeafNodes that hands the key on contains the attribute-prefix test); ITER.fresh for parsePath. PRED.local; WALK.total map arm always reaches a member loop."+levelNote,
 		nil,
 		func(p *Prog, r *Report) {
 			ruleWalkTotal(p, r, []walkerSpec{{"mxj.getLeafNodes", []string{"param:noattr", "load(mxj.attrPrefix)"}}})
@@ -309,7 +309,7 @@ func init() {
 		panicRules([]string{"mxj.Map.UpdateValuesForPath"}))
 
 	register("C11",
-		"Structural clauses of SetValueForPath / Remove / RenameKey: PAIR.atomic (exactly the documented writes, none in a loop, no error return reachable after a write, the renamed value moved unchanged then the old key deleted on the same parent, collision test is a presence test), WALK.progress for the parent walker (parent returned by position, recursion on the rest of the path; a value that is not a map ends the walk with an error), PATH.segments (the path is taken apart at its last separator: the deleted / moved key is the last segment, the sibling that forbids a rename is looked up under the path without its last segment), PANIC.assert/idx/nil, PRESENCE.commaok. Not decided: the frame condition as a whole; refusal to overwrite at top level (a string-value fact)."+levelNote,
+		"Structural clauses of SetValueForPath / Remove / RenameKey: PAIR.atomic (exactly the documented writes, none in a loop, no error return reachable after a write, the renamed value moved unchanged then the old key deleted on the same parent, collision test is a presence test), WALK.progress for the parent walker (parent returned by position, recursion on the rest of the path; a value that is not a map ends the walk with an error), PATH.segments (the path is taken apart at its last separator: the deleted / moved key is the last segment, the sibling that forbids a rename is looked up under the path without its last segment), PANIC.assert/idx/nil, PRESENCE.commaok. Not decided: the frame condition as a whole; refusal to overwrite at top level (a string-value fact). PATH.segments value-independence clause for SetValueForPath."+levelNote,
 		nil,
 		rulePairAtomic, ruleWalkParent, ruleSetValueIndependent, rulePathSegments, ruleParentNotQueried,
 		func(p *Prog, r *Report) {
@@ -322,7 +322,7 @@ func init() {
 		panicRules(grpMutators[:3]))
 
 	register("C12",
-		"Structural clauses of NewMap: EFFECT.recv (no write instruction reachable from NewMap can target memory reachable from the receiver, for every list of pairs), ERR.path, PANIC.* on the projection code. Not decided: exact content of the projection."+levelNote,
+		"Structural clauses of NewMap: EFFECT.recv (no write instruction reachable from NewMap can target memory reachable from the receiver, for every list of pairs), ERR.path, PANIC.* on the projection code. Not decided: exact content of the projection. ERR.path of j2x.JsonNewJson."+levelNote,
 		nil,
 		func(p *Prog, r *Report) { ruleEffectRecv(p, r, p.named("mxj.Map.NewMap"), "EFFECT.recv") },
 		func(p *Prog, r *Report) { ruleErr(p, r, []string{"mxj.Map.NewMap", "j2x.JsonNewJson"}, "NewMap") },
@@ -330,7 +330,7 @@ func init() {
 		panicRules(grpProject))
 
 	register("C13",
-		"Structural clauses of reader-schedule independence: IO.read (every Read result is consumed as the io.Reader contract prescribes: count tested, data used only when n > 0, data before error, (0,nil) retried), IO.bytereader (xml.NewDecoder always gets an io.ByteReader; adaptors read one byte at a time), IO.tee (the raw capture receives exactly the bytes handed to the decoder; Raw functions return the sink's bytes), LOOP.handler (handlers get the decoded value, false stops reading), IO.nobuffer (the caller's reader is never wrapped in a reader that reads ahead), WRAP.fileloop, JSON.decoder (the stream and file readers decode through NewMapJson's configured decoder only, as direct decoding does), PANIC.nil on the raw JSON reader, ERR.path. Not decided: equality of decoded Maps with direct decoding; the hand-written JSON scanner's quote/escape logic."+levelNote,
+		"Structural clauses of reader-schedule independence: IO.read (every Read result is consumed as the io.Reader contract prescribes: count tested, data used only when n > 0, data before error, (0,nil) retried), IO.bytereader (xml.NewDecoder always gets an io.ByteReader; adaptors read one byte at a time), IO.tee (the raw capture receives exactly the bytes handed to the decoder; Raw functions return the sink's bytes), LOOP.handler (handlers get the decoded value, false stops reading), IO.nobuffer (the caller's reader is never wrapped in a reader that reads ahead), WRAP.fileloop, JSON.decoder (the stream and file readers decode through NewMapJson's configured decoder only, as direct decoding does), PANIC.nil on the raw JSON reader, ERR.path. Not decided: equality of decoded Maps with direct decoding; the hand-written JSON scanner's quote/escape logic. PANIC.nil over every function below the readers; WRAP.fileloop append-after-error-test clause."+levelNote,
 		[]string{"io.Reader / io.ByteReader / io.Writer contracts as documented"},
 		func(p *Prog, r *Report) { ruleIORead(p, r, p.PkgFuncs("mxj")) },
 		func(p *Prog, r *Report) { ruleIOByteReader(p, r, p.PkgFuncs("mxj")) },
@@ -364,7 +364,7 @@ func init() {
 		func(p *Prog, r *Report) { ruleCastOpaque(p, r, []string{"mxj.xmlToMapParser", "mxj.xmlSeqToMapParser"}) })
 
 	register("C15",
-		"Panic-obligation discharge over every core function reachable from the decoders, the string-argument APIs and the encoders: PANIC.idx (every index/slice operation is either proven in range by the Go compiler's prove pass or discharged by the zone analysis / a structural rule), PANIC.assert (every single-value type assertion has an operand whose dynamic type set is within the asserted type), PANIC.nil (nil map writes, nil dereferences of module results, method calls on nil errors, calls of nil function variables), PANIC.explicit, PANIC.overflow (an index or slice bound x + c is computed only where x is bounded above, so the zone analysis' mathematical integers are sound), PANIC.compare (== between two interface values only where one operand can hold comparable types only), WALK.reentry (a walker that calls itself with the same node does so only with a segment tested different from the one that triggered the call: no unbounded recursion on a key named like the wildcard), and ERR.path on the decoders. Not decided: stack exhaustion on deeply nested input, panics inside the standard library on well-typed arguments, termination of the bulk handlers, 'fails exactly when the tokenizer rejects'."+levelNote,
+		"Panic-obligation discharge over every core function reachable from the decoders, the string-argument APIs and the encoders: PANIC.idx (every index/slice operation is either proven in range by the Go compiler's prove pass or discharged by the zone analysis / a structural rule), PANIC.assert (every single-value type assertion has an operand whose dynamic type set is within the asserted type), PANIC.nil (nil map writes, nil dereferences of module results, method calls on nil errors, calls of nil function variables), PANIC.explicit, PANIC.overflow (an index or slice bound x + c is computed only where x is bounded above, so the zone analysis' mathematical integers are sound), PANIC.compare (== between two interface values only where one operand can hold comparable types only), WALK.reentry (a walker that calls itself with the same node does so only with a segment tested different from the one that triggered the call: no unbounded recursion on a key named like the wildcard), and ERR.path on the decoders. Not decided: stack exhaustion on deeply nested input, panics inside the standard library on well-typed arguments, termination of the bulk handlers, 'fails exactly when the tokenizer rejects'. OPT.setter for SetArraySize (the buffer capacity stays positive)."+levelNote,
 		nil,
 		panicRules(c15Roots()),
 		ruleOptSetterFor([]string{"mxj.defaultArraySize"}),
@@ -375,7 +375,7 @@ func init() {
 		})
 
 	register("C16",
-		"Structural clauses of encoder determinism and variant agreement: ORDER (no order-sensitive effect inside a map range; collected slices sorted before use; the sort key is the map key / sequence number), WRAP.writer (8 writer forms write exactly the encoder's bytes once), WRAP.concat (Maps string forms concatenate per-Map encodings in list order; file forms write exactly the string form), INFL.indent (the indent flag only adds whitespace), SEQ.types (every typed read of a '#seq' entry in the sequence encoder accepts both int and float64, so equal MapSeqs are ordered alike however they were built), VALID.coupling (the optional validity check reads a copy and returns the accumulator's bytes untouched, so the document does not depend on the check being on), TAGS.protocol / TAGS.seqprotocol (in particular: no indentation is written between an element's own text and its end tag, where it would become character data), EFFECT.nondet (no goroutine/time/rand/pool on encoder paths), FWD.variadic/FWD.param (options forwarded), OPT.scope (encoders read only encoder options). Not decided: byte identity between variants beyond the structural identity of the bytes handed on."+levelNote,
+		"Structural clauses of encoder determinism and variant agreement: ORDER (no order-sensitive effect inside a map range; collected slices sorted before use; the sort key is the map key / sequence number), WRAP.writer (8 writer forms write exactly the encoder's bytes once), WRAP.concat (Maps string forms concatenate per-Map encodings in list order; file forms write exactly the string form), INFL.indent (the indent flag only adds whitespace), SEQ.types (every typed read of a '#seq' entry in the sequence encoder accepts both int and float64, so equal MapSeqs are ordered alike however they were built), VALID.coupling (the optional validity check reads a copy and returns the accumulator's bytes untouched, so the document does not depend on the check being on), TAGS.protocol / TAGS.seqprotocol (in particular: no indentation is written between an element's own text and its end tag, where it would become character data), EFFECT.nondet (no goroutine/time/rand/pool on encoder paths), FWD.variadic/FWD.param (options forwarded), OPT.scope (encoders read only encoder options). Not decided: byte identity between variants beyond the structural identity of the bytes handed on. ROOT.single / ROOT.ownkey; EFFECT.nondet counts object identity as a source."+levelNote,
 		nil,
 		func(p *Prog, r *Report) { ruleOrder(p, r, encoderRoots()) },
 		func(p *Prog, r *Report) { ruleNondet(p, r, encoderRoots()) },
@@ -392,7 +392,7 @@ func init() {
 		func(p *Prog, r *Report) { ruleOptScope(p, r, "MapEncode", "SeqEncode", "SeqEncodeIndent", "Json") })
 
 	register("C17",
-		"The static argument for 'read-only operations never modify their receiver and may run concurrently': EFFECT.recv (for each of the read-only Map/MapSeq/Maps methods, no write instruction in any function reachable from it can target memory reachable from its receiver), EFFECT.global (no function reachable from a non-setter API writes a package variable or memory reachable from one), EFFECT.input (no write reachable from a package-level decoder can target the byte slice it is given, append into its spare capacity included: goroutines decoding adjacent documents of one buffer do not interfere), OWN.fresh (Copy's result reaches no memory of its argument), OPT.writers. Without a write instruction that can reach shared memory there is no schedule that races or modifies the receiver. Not decided: 'results identical to sequential execution' beyond the absence of shared writes; thread-safety of the standard library is trusted."+levelNote,
+		"The static argument for 'read-only operations never modify their receiver and may run concurrently': EFFECT.recv (for each of the read-only Map/MapSeq/Maps methods, no write instruction in any function reachable from it can target memory reachable from its receiver), EFFECT.global (no function reachable from a non-setter API writes a package variable or memory reachable from one), EFFECT.input (no write reachable from a package-level decoder can target the byte slice it is given, append into its spare capacity included: goroutines decoding adjacent documents of one buffer do not interfere), OWN.fresh (Copy's result reaches no memory of its argument), OPT.writers. Without a write instruction that can reach shared memory there is no schedule that races or modifies the receiver. Not decided: 'results identical to sequential execution' beyond the absence of shared writes; thread-safety of the standard library is trusted. OPT.callers (no library function calls an option setter)."+levelNote,
 		[]string{"whole-program inclusion-based points-to analysis (pointsto.go) with the standard-library effect model", "standard library internals are data-race free for distinct values"},
 		func(p *Prog, r *Report) { ruleEffectRecv(p, r, p.readOnlyMethods(), "EFFECT.recv") },
 		ruleEffectGlobal, ruleEffectInput,
@@ -400,13 +400,13 @@ func init() {
 		ruleOptWriters, ruleOptCallers)
 
 	register("C18",
-		"Structural necessary conditions of 'options have only their documented effect and can be restored', decided for every call history: OPT.writers (each package variable is stored only by init and its named setter: no hidden state survives a reset), OPT.setter (per setter and argument-count class {0,1,>=2}, every CFG path stores the documented value: toggle / explicit / unchanged; explicit stores do not depend on the old value), OPT.excl (encoder- and decoder-side escaping never both on at a setter exit), OPT.dead (every option is read by some non-setter), PAIR.derived (lenAttrPrefix and trimRunes are recomputed with their master variable), OPT.scope (API groups never load options documented not to affect them), INFL.castflag (cast options are read only under the cast flag). Not decided: behavioural equality with a fresh process; restorability of SetGlobalKeyMapPrefix for arbitrary prefix characters."+levelNote,
+		"Structural necessary conditions of 'options have only their documented effect and can be restored', decided for every call history: OPT.writers (each package variable is stored only by init and its named setter: no hidden state survives a reset), OPT.setter (per setter and argument-count class {0,1,>=2}, every CFG path stores the documented value: toggle / explicit / unchanged; explicit stores do not depend on the old value), OPT.excl (encoder- and decoder-side escaping never both on at a setter exit), OPT.dead (every option is read by some non-setter), PAIR.derived (lenAttrPrefix and trimRunes are recomputed with their master variable), OPT.scope (API groups never load options documented not to affect them), INFL.castflag (cast options are read only under the cast flag). Not decided: behavioural equality with a fresh process; restorability of SetGlobalKeyMapPrefix for arbitrary prefix characters. OPT.callers; TABLE.trimset."+levelNote,
 		[]string{"option documentation transcribed in tables.go/rules_opt.go"},
 		ruleOptWriters, ruleOptSetter, ruleSeqCastTag, ruleOptExcl, func(p *Prog, r *Report) { ruleOptDead(p, r, "mxj") }, rulePairDerived, ruleOptCallers, ruleTableTrimSet,
 		func(p *Prog, r *Report) { ruleOptScope(p, r) }, ruleInflCastFlag)
 
 	register("C19",
-		"Structural clauses of 'files, gob and Copy read back equal': WRAP.concat (file writers write exactly the string form, which is the concatenation of per-Map encodings), WRAP.fileloop (readers loop on the raw reader over the opened file; exits only by io.EOF or an error return carrying the Maps read so far; every decoded Map is appended), TABLE.gob (Encode/Decode type agreement; container types registered), WRAP.compose + OWN.fresh (Copy), JSON.decoder (every JSON decode the reader and file functions reach is the one Decoder of NewMapJson on which UseNumber is set under JsonUseNumber: numbers written from json.Number values are read back as such), ERR.path on the file and gob functions. Not decided: equality of what is read back; behaviour on truncated files."+levelNote,
+		"Structural clauses of 'files, gob and Copy read back equal': WRAP.concat (file writers write exactly the string form, which is the concatenation of per-Map encodings), WRAP.fileloop (readers loop on the raw reader over the opened file; exits only by io.EOF or an error return carrying the Maps read so far; every decoded Map is appended), TABLE.gob (Encode/Decode type agreement; container types registered), WRAP.compose + OWN.fresh (Copy), JSON.decoder (every JSON decode the reader and file functions reach is the one Decoder of NewMapJson on which UseNumber is set under JsonUseNumber: numbers written from json.Number values are read back as such), ERR.path on the file and gob functions. Not decided: equality of what is read back; behaviour on truncated files. WRAP.fileloop append-after-error-test clause."+levelNote,
 		nil,
 		ruleWrapConcat, ruleWrapFileLoop, ruleTableGob, ruleJsonEscape,
 		func(p *Prog, r *Report) { ruleJsonScanClosing(p, r, "mxj.getJson") },
@@ -425,7 +425,7 @@ func init() {
 		})
 
 	register("C20",
-		"Wrapper conformance in the resolved program: WRAP.compose over every exported function of j2x (16), x2j (16) and the thin x2j-wrapper forms (19): the module calls are exactly the documented composition, each step is applied to the result of the previous one under its err==nil edge, returned values are results of the composition; FWD.param/FWD.variadic (every parameter reaches the wrapped call); FWD.identity (string / list / byte arguments reach the core call as the parameter itself); SCAN.complete (a member of another type never ends a scan over list members); for x2j-wrapper's re-implemented walkers INFL.crumb, WALK.total, WALK.progress, WALK.collect, INFL.metric; LOOP.handler and IO.read on its bulk forms; ERR.path; OPT.dead for the wrapper's own option. Not decided: value equality of results. FWD.pure (the getAttrs flag handed to the walker by ValuesFromKeyPath / ValuesAtKeyPath depends on the optional argument only)."+levelNote,
+		"Wrapper conformance in the resolved program: WRAP.compose over every exported function of j2x (16), x2j (16) and the thin x2j-wrapper forms (19): the module calls are exactly the documented composition, each step is applied to the result of the previous one under its err==nil edge, returned values are results of the composition; FWD.param/FWD.variadic (every parameter reaches the wrapped call); FWD.identity (string / list / byte arguments reach the core call as the parameter itself); SCAN.complete (a member of another type never ends a scan over list members); for x2j-wrapper's re-implemented walkers INFL.crumb, WALK.total, WALK.progress, WALK.collect, INFL.metric; LOOP.handler and IO.read on its bulk forms; ERR.path; OPT.dead for the wrapper's own option. Not decided: value equality of results. FWD.pure (the getAttrs flag handed to the walker by ValuesFromKeyPath / ValuesAtKeyPath depends on the optional argument only). FWD.names cast-flag clause (an option of another meaning never reaches the decoder's cast argument)."+levelNote,
 		[]string{"wrapper documentation transcribed in rules_wrap.go"},
 		func(p *Prog, r *Report) { ruleWrapCompose(p, r, j2xSpecs()) },
 		func(p *Prog, r *Report) { ruleWrapCompose(p, r, x2jSpecs()) },
